@@ -3,7 +3,7 @@ import itertools
 import z3
 
 from pyvc.contract import Contract, LoopContract, Scope, contract, loop_contract
-from pyvc.values import (SymV, Obj, NpCell, NpArr, AbsVal, SDict, SymSeq, SymDict, PyDict, PyList, ClassRef, NameK,
+from pyvc.values import (EngineLimit, SymV, Obj, NpCell, NpArr, AbsVal, SDict, SymSeq, SymDict, PyDict, PyList, ClassRef, NameK,
                          Opaque, mk, ival, rval, bval, nameval, NONE_ID, A1, A2)
 from pyvc import builtins as B
 from . import vocab as V
@@ -236,6 +236,18 @@ tgt_hid = z3.Function("flat_tgt_hid", I_, I_)
 def flat_space(I, sig, n):
     """a FlatActionSpace whose list has n abstract actions; action i has target (tgt_sub(i), tgt_hid(i))"""
     acls = I.repo.cls(ACT + "Action")
+    # preferred: the object the REAL constructor builds over the scenario (its list is the call-site model of
+    # load_action_list: the same abstract actions), so fields a refactoring derives in __init__ exist
+    if sig.symbolic:
+        try:
+            n_obl = len(I.ctx.obligations)
+            sp = V.construct(I, ACT + "FlatActionSpace", [sig.scenario_obj(I)], label="action_space")
+            del I.ctx.obligations[n_obl:]
+            if isinstance(sp.fields.get("actions"), SymSeq) and sp.fields.get("n") is not None:
+                I.ctx.assume(ival(sp.fields["n"]) == (n if z3.is_expr(n) else z3.IntVal(n)))
+                return sp
+        except EngineLimit:
+            pass
 
     def elem(i):
         return Obj(acls, {"target": (mk(tgt_sub(ival(i)), "int"), mk(tgt_hid(ival(i)), "int")),
@@ -249,7 +261,7 @@ class FlatGetAction(Contract):
     qualname = ACT + "FlatActionSpace.get_action"
     callable_by_contract = False
     bounded = False
-    tags = {"": ("C10", "C11", "C12", "C19")}
+    tags = {"": ("C10", "C11", "C12", "C19", "C01")}
 
     def variants(self):
         return ["python-int", "numpy-integer"]
@@ -429,7 +441,7 @@ class NpIntVec:
 class ParamGetAction(Contract):
     qualname = ACT + "ParameterisedActionSpace.get_action"
     callable_by_contract = False
-    tags = {"": ("C10", "C11", "C12", "C19", "C05", "C07")}
+    tags = {"": ("C10", "C11", "C12", "C19", "C05", "C07", "C01")}
 
     def variants(self):
         return ["list", "tuple"]
@@ -439,7 +451,7 @@ class ParamGetAction(Contract):
         for ax in first_axioms(sig):
             I.ctx.assume(ax)
         sc = sig.scenario_obj(I)
-        sp = Obj(I.repo.cls(ACT + "ParameterisedActionSpace"), {"scenario": sc}, fresh=False, label="action_space")
+        sp = V.construct(I, ACT + "ParameterisedActionSpace", [sc], label="action_space", fallback_fields={"scenario": sc})
         v = [z3.Int(f"av{i}") for i in range(6)]
         # a member of MultiDiscrete(nvec): 0 <= v[i] < nvec[i]
         mx = z3.Int("max_subnet_size")
@@ -524,7 +536,8 @@ class ExploitMapBounded(_MapModel):
     inline_when_concrete = True
     inline_needs_key = "e_shape"       # the real loop needs concrete table keys; otherwise the model is used
     unbounded = False
-    tags = {"": ("C11", "C19", "C12")}
+    # the decoded action carries the cost (C05), probability (C07) and access level (C01) of the definition the map holds
+    tags = {"": ("C11", "C19", "C12", "C05", "C07", "C01")}
     which = "e"
 
     def modifies(self, I, S):
@@ -799,8 +812,28 @@ class EnvInit(Contract):
         want = "FlatActionSpace" if S.extra["flat_actions"] else "ParameterisedActionSpace"
         out.append(("C10.action-space-kind", z3.BoolVal(isinstance(sp, Obj) and sp.cls.name == want)))
         out.append(("C04.steps-start-at-zero", ival(f.get("steps", -1)) == 0))
+        # the three mode switches are stored as given (every later use reads these fields)
+        args = S.call_args[1]
+        same = lambda a, b: z3.BoolVal(a is b) if isinstance(a, bool) or isinstance(b, bool) else \
+            (bval(a) == bval(b) if a is not None and b is not None else z3.BoolVal(False))
+        out.append(("C12.mode-flags-stored-as-given", z3.And(*[same(f.get(k), args[k]) for k in
+                                                               ("fully_obs", "flat_actions", "flat_obs")])))
         out += [("C19." + l.split(".", 1)[1], t) for l, t in layout_installed(sig, hv_state(I))]
         return out
+
+
+@contract
+class GymEnvInit(EnvInit):
+    """the gymnasium.make() entry point: NASimGymEnv(scenario, fully_obs=, flat_actions=, flat_obs=) must build the
+    environment the keyword arguments describe (registered ids differ only in these keywords)"""
+    qualname = "nasim.envs.gym_env.NASimGymEnv.__init__"
+
+    def setup(self, I, variant):
+        S = super().setup(I, variant)
+        env = Obj(I.repo.cls("nasim.envs.gym_env.NASimGymEnv"), {}, fresh=False, label="env")
+        S.a = {"self": env}
+        S.call_args = ([env] + list(S.call_args[0][1:]), S.call_args[1])
+        return S
 
 
 # ---------------------------------------------------------------------------- Scenario.__init__ (host numbering)
